@@ -65,7 +65,11 @@ def getHist (j : Json) : R (Hist FB) := do
       let n ← (← field j "bins").getNat?
       pure (Binning.count n (← getRange (fieldD j "range" Json.null)))
     | e => do pure (Binning.edges (← getFBList e))
-  pure { samples := ss, binning := b, label := strD j "label" }
+  let w ← match fieldD j "weights" Json.null with
+    | Json.null => pure none
+    | wj => do pure (some (← getFBList wj))
+  let dens := match (fieldD j "density" (Json.bool false)).getBool? with | .ok v => v | _ => false
+  pure { samples := ss, binning := b, label := strD j "label", weights := w, density := dens }
 
 def getObj (j : Json) : R (Obj FB) := do
   let t ← getStr (← field j "t")
@@ -85,8 +89,7 @@ def putCmd : DrawCmd FB → Json
       ("ys", putFBs ys), ("yerr", putFBs ye), ("xerr", putFBs xe)]
   | .curve xs ys => obj [("c", "curve"), ("xs", putFBs xs), ("ys", putFBs ys)]
   | .band xs lo hi => obj [("c", "band"), ("xs", putFBs xs), ("lo", putFBs lo), ("hi", putFBs hi)]
-  | .bars cs es => obj [("c", "bars"), ("counts", Json.arr (cs.map fun (n : Nat) => (n : Json)).toArray),
-      ("edges", putFBs es)]
+  | .bars hs es => obj [("c", "bars"), ("heights", putFBs hs), ("edges", putFBs es)]
   | .label w t => obj [("c", "label"), ("which", w), ("text", t)]
   | .legend ts => obj [("c", "legend"), ("texts", Json.arr (ts.map Json.str).toArray)]
 
@@ -115,7 +118,9 @@ def cmdPlot (j : Json) : R Json := do
     | some (lo, hi) => Json.arr #[putFB lo, putFB hi]
     | none => Json.null
   let hists := objs.filterMap fun o => match o with
-    | .histogram h => some (obj [("counts", Json.arr (h.returned.1.map fun (n : Nat) => (n : Json)).toArray),
+    | .histogram h => some (obj [
+        ("counts", Json.arr ((Hist.counts h.samples h.edges).map fun (n : Nat) => (n : Json)).toArray),
+        ("values", putFBs h.binValues), ("heights", putFBs h.returned.1),
         ("edges", putFBs h.returned.2), ("ambiguous", Json.bool (histAmbiguous h))])
     | _ => none
   pure (obj [("cmds", Json.arr (p.render.map putCmd).toArray), ("domain", dom),
